@@ -1,7 +1,13 @@
 package iterators
 
+import "math"
+
 // Between will iterate up to, but not including `b`
+//
 //	Between(0,10) // 0,1,2,3,4,5,6,7,8,9
 func Between(a, b int) Iterator {
-	return &ranger{pos: a, end: b - 1}
+	if a == math.MaxInt || b == math.MinInt {
+		return &ranger{done: true}
+	}
+	return &ranger{pos: a + 1, end: b - 1}
 }
